@@ -532,8 +532,54 @@ def wiring(F, rep):
     rep.ob("R8", "cli:fx-folder", ok, why, main.loc(), key="R8:cli:fx-folder")
 
 
+def folder_scan(F, rep):
+    """R8 (a rate supplied in the user's folder replaces the bundled one): the front-end's directory scan hands EVERY `.xml` file
+    to the loader. Between `read_dir` and the construction of a `RateFile`, the only conditions are the iteration, error
+    propagation and the test of the extension; a further filter on the file's name or stem silently leaves supplied rates out and
+    the bundled ones in force (seeded change C08-s5) — rejecting a mislabelled file is the loader's job (R6/R7), with an error."""
+    from roles import guards_of
+    n = 0
+
+    def scans(x):
+        root = F.bodies[x.parent] if x.kind == "closure" and x.parent in F.bodies else x
+        fam = [root] + [F.bodies[y] for y in F.children(root.id)]
+        return any(parse_callee(t["callee"])[2] == "read_dir" for y in fam for _, t in y.calls())
+
+    def benign(cond):
+        txt = show(cond)
+        if isinstance(cond, tuple) and cond and cond[0] == "discr" and any(k in txt for k in ("next(", "branch(", "read_dir", "metadata", "read_to_string")):
+            return True
+        names = {parse_callee(x[1])[2] for x in subterms(cond) if isinstance(x, tuple) and x and x[0] == "call"}
+        if "extension" in names and not (names & {"file_stem", "file_name", "split_once", "parse", "starts_with", "len", "chars", "contains"}):
+            return True
+        return bool(names) and names <= {"is_file", "is_dir", "file_type", "metadata", "path"}
+    for b in F.bodies.values():
+        if b.crate not in ("cgt_tool", "cgt_mcp", "cgt_wasm") or not P.user_written(F, b):
+            continue
+        for i, si, s in b.assigns():
+            rv = s["rv"]
+            if not (rv["k"] == "agg" and rv["adt"].endswith("::RateFile")):
+                continue
+            # the file is built here, or in a helper called from the function that walks the directory
+            chains = [[(b, i)]] if scans(b) else [[(cb, ci), (b, i)] for cb, ci, ct in F.call_sites(lambda cal, bid=b.id: cal == bid)
+                                                  if P.user_written(F, cb) and scans(cb)]
+            for chain in chains:
+                n += 1
+                extra = []
+                for xb, xi in chain:
+                    xt = Terms(F, xb, inline_depth=2)
+                    extra += [show(cond)[:80] for cond, val, where in guards_of(xb, xt, xi) if not benign(cond)]
+                rep.ob("R8", f"{chain[0][0].short}:every-xml-file", not extra, "every .xml file of the folder becomes a rates file for the loader" if not extra else
+                       f"rates files are also filtered by {extra[:2]}: a supplied file that fails the test is skipped without a message and the bundled rate stays in force",
+                       b.loc(s["sp"]), key=f"R8:{chain[0][0].short}:folder-filter")
+    rep.count("folder_scan_sites", n)
+    if n < 1:
+        rep.unresolved("R8", "folder-scan", "no directory scan building RateFile values found in the front-ends")
+
+
 def run(ctx, rep):
     F = ctx.F
+    folder_scan(F, rep)
     conv = field_wise(F, rep)
     converter(F, rep, conv)
     loader(F, rep)
